@@ -13,6 +13,29 @@
 #include "TFEL/Material/IsotropicModuli.hxx"
 #include "TFEL/Material/StiffnessTensor.hxx"
 
+// Lame.hxx declares, next to the overload traced here (plain tensors, use_qt = false), an overload of `exe` on quantities
+// (tfel::config::Types<1u, T, true>), and qt<Unit, Sym> cannot be named (qt requires std::is_arithmetic).  The quantity overload is
+// never called by the tracer: give its parameter types placeholders so that the class can be instantiated with Sym.
+namespace c21shim {
+  struct NoTensor {};
+  struct NoStress {};
+}  // namespace c21shim
+template <>
+struct tfel::config::Types<1u, symv::Sym, true> {
+  using StiffnessTensor = c21shim::NoTensor;
+  using stress = c21shim::NoStress;
+};
+
+// Types<1u, T, false> itself names a quantity (SpatialGradType<1u, T, true>): same placeholder treatment, with the two types the traced
+// overload uses defined as Types<1u, double, false> defines them (checked by the static_assert)
+template <>
+struct tfel::config::Types<1u, symv::Sym, false> {
+  using StiffnessTensor = tfel::math::st2tost2<1u, symv::Sym>;
+  using stress = symv::Sym;
+};
+static_assert(std::is_same_v<tfel::config::Types<1u, double, false>::StiffnessTensor, tfel::math::st2tost2<1u, double>> &&
+              std::is_same_v<tfel::config::Types<1u, double, false>::stress, double>);
+
 using namespace symv;
 using namespace tfel::material;
 using MH = ModellingHypothesis;
@@ -73,6 +96,7 @@ std::vector<T> f(const int w, const std::vector<T>& p) {
     case 17: { tfel::math::st2tost2<2u, T> C; prefill(C); computeOrthotropicStiffnessTensor<MH::PLANESTRAIN, STAC::UNALTERED, OrthotropicAxesConvention::PIPE>(C, p[0], p[1], p[2], p[3], p[4], p[5], p[6], p[7], p[8]); return flat<2u, T>(C); }
     case 18: { tfel::math::st2tost2<2u, T> C; prefill(C); computeOrthotropicStiffnessTensor<MH::PLANESTRAIN, STAC::UNALTERED, OrthotropicAxesConvention::PLATE>(C, p[0], p[1], p[2], p[3], p[4], p[5], p[6], p[7], p[8]); return flat<2u, T>(C); }
     case 19: { tfel::math::st2tost2<2u, T> C; prefill(C); computeOrthotropicStiffnessTensor<MH::PLANESTRESS, STAC::ALTERED, OrthotropicAxesConvention::PLATE>(C, p[0], p[1], p[2], p[3], p[4], p[5], p[6], p[7], p[8]); return flat<2u, T>(C); }
+    case 21: { tfel::math::st2tost2<1u, T> C; prefill(C); computeAlteredElasticStiffness<MH::AXISYMMETRICALGENERALISEDPLANESTRESS, T>::exe(C, p[0], p[1]); return flat<1u, T>(C); }  // Lame.hxx, inputs lambda, mu
     default: { tfel::math::st2tost2<3u, T> C; prefill(C); computeOrthotropicStiffnessTensor<MH::TRIDIMENSIONAL, STAC::UNALTERED, OrthotropicAxesConvention::PLATE>(C, p[0], p[1], p[2], p[3], p[4], p[5], p[6], p[7], p[8]); return flat<3u, T>(C); }
   }
 }
@@ -111,10 +135,10 @@ std::vector<Combo> all_combos(std::integer_sequence<int, I...>) {
 }
 static_assert(int(MH::TRIDIMENSIONAL) == 6 && int(MH::UNDEFINEDHYPOTHESIS) == 7 && int(OAC::PLATE) == 2 && int(STAC::ALTERED) == 1);
 
-static const char* names[21] = {"from_young_nu", "from_kg", "from_lambda_mu", "lame", "stiff_young_nu", "stiff_kg", "kg_of_stiff", "iso_defect",
+static const char* names[22] = {"from_young_nu", "from_kg", "from_lambda_mu", "lame", "stiff_young_nu", "stiff_kg", "kg_of_stiff", "iso_defect",
                                 "iso3d", "iso_pstrain", "iso_pstress", "iso_agps", "ortho3d", "ortho_pstrain", "ortho_pstress", "ortho_agps",
-                                "ortho_agpstrain", "ortho_pstrain_pipe", "ortho_pstrain_plate", "ortho_pstress_plate", "ortho3d_plate"};
-static const int nin[21] = {2, 2, 2, 2, 2, 2, 2, 2, 2, 2, 2, 2, 9, 9, 9, 9, 9, 9, 9, 9, 9};
+                                "ortho_agpstrain", "ortho_pstrain_pipe", "ortho_pstrain_plate", "ortho_pstress_plate", "ortho3d_plate", "lame_agps"};
+static const int nin[22] = {2, 2, 2, 2, 2, 2, 2, 2, 2, 2, 2, 2, 9, 9, 9, 9, 9, 9, 9, 9, 9, 2};
 static const char* pn2[3][2] = {{"E", "nu"}, {"K", "G"}, {"la", "mu"}};
 static const char* pn9[9] = {"E1", "E2", "E3", "n12", "n23", "n13", "G12", "G23", "G13"};
 
@@ -122,11 +146,11 @@ int main(int argc, char** argv) {
   if (argc >= 4 && !std::strcmp(argv[1], "gen")) {
     Trace tr("C21_gen");
     Rng rng(std::strtoull(argv[3], nullptr, 10));
-    for (int w = 0; w < 21; ++w) {
+    for (int w = 0; w < 22; ++w) {
       std::vector<Sym> ps;
       std::vector<std::string> pnames;
       if (nin[w] == 2) {
-        int k = (w == 1 || w == 5 || w == 6 || w == 7) ? 1 : (w == 2 ? 2 : 0);
+        int k = (w == 1 || w == 5 || w == 6 || w == 7) ? 1 : ((w == 2 || w == 21) ? 2 : 0);
         pnames = {pn2[k][0], pn2[k][1]};
       } else
         for (auto s : pn9) pnames.push_back(s);
